@@ -34,7 +34,7 @@ func checkC19(c *Ctx) {
 	r.Rule("R2.prefix", "the result starts with the rows data[i*fs:(i+1)*fs] appended in order and never written afterwards")
 	r.Rule("R3.count", "every successful return carries at least len(data)/fragmentSize + redundancy rows")
 	r.Rule("R4.rows", "the row index selected by matrixLine is not provably >= 1 (or >= mm) nor provably <= m-2: every row stays selectable")
-	r.Explanation = "E3 obligations over fragmentation.Encode and callees; R2/R3 are def-use and linear-fact arguments on the SSA of Encode; the pure helpers isPower2 and prbs23 are decided for all inputs by the bit-level engine (R5); the parity-matrix line construction as a whole and recoverability are declined"
+	r.Explanation = "E3 obligations over fragmentation.Encode and callees; R2/R3 are def-use and linear-fact arguments on the SSA of Encode; the pure helpers isPower2 and prbs23 are decided for all inputs by the bit-level engine (R5); for a grid of fragment counts and sizes the whole encoder is interpreted on symbolic data and compared with an independent transcription of the parity matrix (R6); the encoder keeps no state (R7); recoverability (rank of the matrix) is declined"
 	guardsSelfTest(c, "R9.selftest")
 	enc := P.SSAFunc("applayer/fragmentation", "Encode")
 	ml := P.SSAFunc("applayer/fragmentation", "matrixLine")
@@ -60,6 +60,8 @@ func checkC19(c *Ctx) {
 	c19Count(c, a, enc)
 	c19Rows(c, E, ml)
 	c19Helpers(c)
+	c19Parity(c)
+	ruleStatelessGlobals(c, "R7.stateless", enc)
 	r.Assumptions = guardsAssumptions
 }
 
